@@ -56,51 +56,92 @@ THEOREMS = [
     "BeyondVerif.C12W.ecc_one_refused",
     "BeyondVerif.C12W.missing_line_is_parse_error",
     "BeyondVerif.C12W.blank_drag_field_ends_generator",
+    "BeyondVerif.C12W.alpha5_refused",
+    "BeyondVerif.C12W.negative_norad",
 ]
-LEVEL_TEXT = ("Lean theorems over a List Char / Int model of beyond/io/tle.py whose column slices and writer layout are regenerated from the Python AST on every "
-              "run (the hand-modelled functions are compared statement by statement with the source the model was written from). For EVERY record inside the "
-              "ranges of the format (5-digit catalogue number, empty/full designator, signed/zero drag and ndot terms with any one-digit exponent, e in [0,1), "
-              "angles in [0,360), n < 100, element numbers 0-9999, revolution numbers 0-99999, every day of 1957-2056, with or without name line): the written "
-              "lines have 69 characters, correct checksums and pass _check_validity (written_lines_valid); from_orbit succeeds, shows exactly those lines and "
-              "reads back to the same record field for field (parse_write_id); parse -> orbit -> write reproduces the identical text, name included "
-              "(write_parse_id); _float/_unfloat are inverse on every (sign, 5-digit mantissa, exponent) triple; the epoch is read as exactly 864 us per 1e-8 day. "
-              "For EVERY line the modulo-10 checksum changes under every single-digit substitution; _check_validity accepts exactly the texts with >= 2 lines, "
-              "correct line numbers and 69-character lines with matching check digit (valid_iff), so wrong length, line number, line count and every single-digit "
-              "corruption are rejected; from_string yields exactly the accepted entries of every text whose entries are intact or corrupted in digits, length or "
-              "one line number. Exact differential correspondence of the model with Tle, Tle.from_orbit, Tle.from_string, _float, _unfloat.")
-LEVEL_NOTE = ("the model replaces decimal<->double conversion and the float prelude of from_orbit by exact decimal arithmetic (assumption, checked by the exact "
-              "correspondence on every generated case and by the oracle on off-grid floats); the hand-written model is tied to the code by AST comparison + correspondence; "
-              "Lean kernel + propext/Classical.choice/Quot.sound")
-TECHNIQUE = "Lean 4 proofs over a List Char / Int model of tle.py whose column table and writer layout are regenerated from the Python AST; exact model/implementation correspondence"
+LEVEL_TEXT = ("Lean theorems over a List Char / Int / exact-rational model of beyond/io/tle.py whose column slices, writer layout, uses of the `orbit` argument and UTC date "
+              "expression are regenerated from the Python AST on every run (the hand-modelled functions are compared statement by statement with the source the model was "
+              "written from). RECORDS OF PRINTED UNITS, for EVERY record inside the ranges of the format (5-digit catalogue number, empty/full designator, signed/zero drag "
+              "and ndot terms with any one-digit exponent, e in [0,1), angles in [0,360), n < 100, element numbers 0-9999, revolution numbers 0-99999, every day of 1957-2056, "
+              "with or without name line): the written lines have 69 characters, correct checksums and pass _check_validity (written_lines_valid, also for the three values a "
+              "rounding carry reaches); from_orbit succeeds, shows exactly those lines and reads back to the same record field for field (parse_write_id); parse -> orbit -> "
+              "write reproduces the identical text, name included (write_parse_id); _float/_unfloat are inverse on every (sign, 5-digit mantissa, exponent) triple. "
+              "OFF-GRID ORBITS (every number handed to str.format is an arbitrary double, modelled by its exact rational value; CPython's correctly rounded formatting = "
+              "half-even on that value): every fixed-point field is the grid value nearest to the double (format_within_half_unit: |printed - x| <= half a printed unit), "
+              "the five digits and the exponent of a drag term are found and nearest for every double between 1e-400 and 1e400 (drag_exponent_found, drag_five_digits, "
+              "drag_normal_form), the epoch of EVERY instant of 1957-2056 is written with the right two-digit year (pivot 57, leap years through CPython's ord2ymd) and is "
+              "read back at most 432 us away, in the same year (epoch_century, epoch_within_half_unit); every orbit of the writer's domain yields two 69-column lines "
+              "(quantize_wide, offgrid_written_valid); what is written is read back as itself up to the normalisation of the three carries 360.0000 / day N+1.00000000 / "
+              "00000-9 (wide_roundtrip), and from the SECOND generation on parse -> write is the identity, character for character "
+              "(second_generation_fixed, offgrid_idempotent_from_second_generation, offgrid_three_generations). THE ORBIT SIDE: for every catalogue-number text and every "
+              "record whatsoever, an accepted record was written on exactly 69 columns, its catalogue number has at most five characters and is int() of its columns; "
+              "non-negative integers are accepted exactly below 100000, 0 included (accepted_writes_69_columns, accepted_norad_fits, norad_int_accepted_only, "
+              "norad_int_accepted); Tle.from_orbit reads of its argument exactly name/norad_id/cospar_id behind hasattr, a converted copy, the date converted to UTC, the "
+              "six elements, the drag terms and the two counters (orbit_reads_exact, epoch_from_utc_date over the regenerated list), so that after ANY history of in-place "
+              "modifications, copies, re-reads and reads a read shows the current values and never the Tle the orbit carries (read_reflects_current_values, "
+              "history_independent_of_source, reads_do_not_change_the_orbit). VALIDATION: for EVERY line the modulo-10 checksum changes under every single-digit "
+              "substitution; _check_validity accepts exactly the texts with >= 2 lines, correct line numbers and 69-character lines with matching check digit (valid_iff), so "
+              "wrong length, line number, line count and every single-digit corruption are rejected. MULTI-TLE TEXTS: for EVERY list of lines whatsoever (valid and rejected "
+              "entries, name lines, blanks, comments, 2- and 3-line formats, orphan lines, any interleaving) from_string yields exactly the accepted ones among the texts "
+              "`window ++ [line 2]`, one per line 2, built from at most the two lines in front of it (from_string_windows); nothing survives a tried entry "
+              "(from_string_no_memory), a rejected entry leaves no trace, a valid entry is yielded wherever it stands (rejected_entry_leaves_no_trace, "
+              "valid_entry_yielded_anywhere). Exact differential correspondence of the model with Tle, Tle.from_orbit (grid records, off-grid doubles in five time scales, "
+              "argument forms, histories on one orbit), Tle.from_string, _float, _unfloat.")
+LEVEL_NOTE = ("the float operations IN FRONT of str.format (np.degrees, % 360, n*86400/2pi, /2, /6, the float sum of the day fraction) are not modelled: the model starts at the "
+              "double handed to str.format (the harness evaluates the source's own keyword expressions, which extract compares with the modelled ones); the formatting itself "
+              "(correct rounding, ties to even on the exact binary value), the binary64 product of the small-drag branch and CPython's calendar are inside the model and "
+              "compared exactly; the hand-written model is tied to the code by AST comparison + correspondence; Lean kernel + propext/Classical.choice/Quot.sound")
+TECHNIQUE = ("Lean 4 proofs over a List Char / Int / exact-rational model of tle.py whose column table, writer layout, reads of the orbit and UTC date expression are regenerated "
+             "from the Python AST; exact model/implementation correspondence, histories included")
 TRUSTED = [
-    "harness/props/C12.py extract: reads the column slices of Tle.__init__, the two str.format layouts and keyword expressions of Tle.from_orbit from the AST -> Generated/TleColumns.lean; "
-    "refuses to run (check reports the model as no longer tied) when _float, _unfloat, _checksum, _check_validity, from_string or the strip / eccentricity statements differ statement-wise from the modelled source",
-    "lean/BeyondVerif/Model/Tle.lean (hand-written: int()/float() sub-grammar, _float, _unfloat, Tle.__init__, orbit()+from_orbit numeric prelude as exact decimal rounding, from_string), tied by the correspondence run",
-    "correspondence harness: exact comparison of strings, integers, error kinds and line numbers; parsed floats compared with the model's exact decimals to 1e-13 relative; epoch to the microsecond",
+    "harness/props/C12.py extract: reads the column slices of Tle.__init__, the two str.format layouts and keyword expressions of Tle.from_orbit, every use of the parameter `orbit` "
+    "and the expression assigned to `date` from the AST -> Generated/TleColumns.lean; refuses to run (check reports the model as no longer tied) when _float, _unfloat, _checksum, "
+    "_check_validity, from_string, the argument resolution at the top of from_orbit or the strip / eccentricity statements differ statement-wise from the modelled source",
+    "lean/BeyondVerif/Model/Tle.lean (int()/float() sub-grammar, _float, _unfloat, Tle.__init__, orbit()+from_orbit on records of printed units, from_string), Model/TleOrb.lean "
+    "(argument resolution, catalogue number as text, the orbit as a state machine), Model/TleQuant.lean (exact rationals of doubles, correctly rounded formatting, binary64 rounding "
+    "of one product, CPython's ord2ymd shared with Model/Sgp4Wrap.lean, UTC offset as a parameter): hand-written, tied by the correspondence run",
+    "correspondence harness: exact comparison of strings, integers, error kinds and line numbers; parsed floats compared with the model's exact decimals to 1e-13 relative; epoch to the "
+    "microsecond; off-grid doubles travel as exact fractions; own-scale minus UTC of an orbit's date is taken from Date.change_scale (property C03/C04's domain)",
 ]
 ASSUMPTIONS = [
     "texts are printable ASCII; int()/float() are modelled on the grammar [blanks][sign]digits[.digits] (no exponents, underscores, inf/nan, non-ASCII digits) — every numeric column of a generated or digit-corrupted TLE is in it",
-    "CPython float<->decimal conversion is correctly rounded and the float operations of orbit()/from_orbit (x*2/2, x*6/6, deg2rad/degrees, n*86400/2pi round trip, the day-of-year sum) do not move a printed-grid value across a rounding boundary: "
-    "the model rounds the exact decimal half-even; exact decimal ties (only possible for non-canonical 6+ digit drag mantissas) are excluded from the comparison",
-    "Date(datetime) -> change_scale('UTC').datetime is the identity on UTC microseconds (checked to the microsecond by the correspondence on every parsed case)",
+    "CPython's float formatting ('{:.Nf}', '{:.4e}') is correctly rounded, ties to even on the exact binary value (David Gay's algorithm); float(text) is correctly rounded; "
+    "round(float) is half-even on the float; abs(x) * 10**14 is one binary64 multiplication (10**14 exact): checked by the exact correspondence on off-grid doubles, ties in the "
+    "fourth/fifth/eighth decimal and products at k + 1/2 included",
+    "the float operations in front of the formatting (np.degrees(a) % 360, n*86400/(2 pi), ndot/2, ndotdot/6, x*2/2 and x*6/6 of orbit(), the day-of-year sum hour/24 + minute/1440 + "
+    "second/86400 + microsecond/86400e6) move a value by a few ulp, far below a printed unit: the model takes the day fraction exactly — it agrees with the float sum except possibly when "
+    "the UTC microsecond count is exactly 432 modulo 864 (a tie of the eighth decimal; such cases are compared modulo the tie) — and takes the other numbers as the doubles the source's "
+    "own expressions produce",
+    "Date(datetime) -> change_scale('UTC').datetime is the identity on UTC microseconds; own scale - UTC comes from Date.change_scale (C03/C04)",
     "canonical TLE = what the writer produces from a record in range (InRange in Lemmas/TleWrite.lean): classification U, ephemeris type 0, drag terms with 5-digit normalised mantissa and one-digit exponent (zero as 00000-0), "
-    "designator = 2 digits + piece without surrounding blanks, name line without '0 ' prefix or surrounding blanks",
+    "designator = 2 digits + piece without surrounding blanks, name line without '0 ' prefix or surrounding blanks; WideRange adds 360.0000, day (days of the year + 1).00000000 and ddddd-9",
 ]
 NOT_COVERED = [
-    "classification other than U, ephemeris type other than 0, non-normalised drag terms (written back normalised, or with exponent -9 below 1e-10): outside the quantifier; model and code agree on them (correspondence)",
-    "off-grid float orbits (values between printed units): the theorems speak about records of printed units; rounding of floats to the grid is the float assumption above, exercised by the oracle (1000/10000 random orbits per run)",
-    "the writer emits 360.0000 for an angle within 5e-5 deg below 360, day (N+1).00000000 for the last 432 us of a year and 00000-9 for |x| < 0.5e-14: same elements / same instant to the printed precision, "
-    "but a second generation prints 0.0000 / day 1 of the next year / 00000-0 (counted by the oracle, not failed)",
-    "a line that is neither '1 ' nor '2 ' (e.g. a second line whose number was corrupted to 3) is by design taken as the name line of the following two-line-format entry: the entry is yielded with that name "
-    "(from_string_yields_valid_entries is stated name aside; from_string_framed_exact includes names when every entry kept its line numbers)",
+    "classification other than U, ephemeris type other than 0, non-normalised drag terms other than those the writer itself produces below 1e-10: outside the quantifier; model and code agree on them (correspondence)",
+    "the float operations in front of str.format (see ASSUMPTIONS): exercised end to end by the oracle (half a printed unit + 1e-6 relative slack on 1000/10000 random orbits per run, five time scales), not proved",
+    "a year-end carry in 2056 is written 57001.00000000 by the second generation and read as 1957 (the documented limit of the two-digit year): the text is still a fixed point (proved), the instant is not; "
+    "epochs after 2056-12-31T23:59:59.999568 are outside the quantifier",
+    "negative catalogue numbers: '{:0>5}' and int() accept -9999 … -1000 (the sign fills the fifth column) and refuse the others (Witness negative_norad); alpha-5 numbers are refused "
+    "(int() fails, Witness alpha5_refused); both outside the quantifier (5-digit catalogue numbers)",
+    "a line that is neither '1 ' nor '2 ' (e.g. a second line whose number was corrupted to 3) is by design taken as the name line of the following two-line-format entry: from_string_windows states exactly which lines "
+    "are put in front of a line 2; the entry is yielded with that name",
+    "names containing line breaks, identifiers that are None: outside the model (never generated)",
 ]
-OPEN = []
+OPEN = [
+    "C12-blank-drag-field-indexerror (open finding, proposed_fixes/C12-blank-drag-field-indexerror.diff): Tle(text) raises IndexError on a blank ndotdot/6 or B* field and Tle.from_string dies with it; "
+    "the model follows the code (Err.indexError ends the generator: from_string_windows, Witness blank_drag_field_ends_generator)",
+]
 RULE = ("correspondence: records with every field drawn from its full range with edge values (0, max, 10^k boundaries, year pivot 56/57, leap days), written by an "
         "independent column-table writer; for each: parse, parse->write, write (in and out of range), all single-digit substitutions (exhaustive on 3/50 TLEs, 30 per line "
         "otherwise), deletions/insertions/truncations/leading and trailing blanks, every line-number replacement, 0/1/4-line texts, non-canonical accepted fields; _float/_unfloat "
-        "strings; multi-entry texts with corrupted entries. non-trivial = every case (key = the text); oracle: the property's clauses on Tle, Tle.from_orbit, Tle.from_string, "
-        "_float, _unfloat with tolerances of half a printed unit (epoch 1e-8 day); every formerly failing family (leading blank, stale line 1, e -> 1.0000000, missing line, "
-        "drag below 1e-10) is exercised by directed cases on every run")
+        "strings; multi-entry texts with corrupted entries and arbitrary interleavings of 15 kinds of lines (every ordered pair of kinds followed by a valid entry); off-grid orbits "
+        "(angles at 0, 2pi-, 359.99994/6 deg, e at 0.99999994/6, drag terms around 1e-10 and 0.5e-14, epochs at the last microseconds of a year, dates labelled UTC/TAI/TT/GPS/TDB "
+        "under the real IERS tables, one number pushed out of its columns) sent as exact fractions, then their second and third generation; _unfloat on doubles of every magnitude "
+        "and on ties; datetime -> (yy, day) for every kind of boundary of 1957-2056; histories of 2-10 operations on one orbit (three ways to start, every attribute set by name or "
+        "by index, deleted, copies, re-reads, reads with and without arguments). non-trivial = every case (key = the request); oracle: the property's clauses on Tle, Tle.from_orbit, "
+        "Tle.from_string (three error modes, another comment mark), _float, _unfloat with tolerances of half a printed unit (epoch 1e-8 day); second/third generation after every write; "
+        "orbits held in other forms/frames; every history compared with a freshly built orbit; every formerly failing family (leading blank, stale line 1, e -> 1.0000000, missing "
+        "line, drag below 1e-10, blank drag field) is exercised by directed cases on every run")
 
 TLE_PY = os.path.join(core.REPO, "beyond", "io", "tle.py")
 
@@ -724,6 +765,12 @@ def o_corrupt(out, rng, r, n_digit, n_len):
             ls = list(both)
             ls[li] = bad
             judge("linenum", ls, "line number")
+        # a digit turned into a character no TLE line contains (lower case, punctuation): never acceptable, whatever the check digit says
+        digs = [p for p, c in enumerate(both[li]) if c.isdigit() and p > 0]
+        for p in (digs if n_digit is None else rng.sample(digs, min(12, len(digs)))):
+            ls = list(both)
+            ls[li] = corrupt_digit(both[li], p, rng.choice("abcxyz_*,;:!"))
+            judge("digit-to-foreign-char", ls, "character (a digit replaced by a character that is not part of the format)")
     # a line of length zero: the text has a single line left
     judge("missing-line", [l1, ""], "length (second line empty)")
     judge("missing-line", [l1], "length (second line missing)")
@@ -1231,6 +1278,20 @@ def run_history(out, start, r, ops, rng=None):
             out.fail("history-read-differs-from-fresh-after-" + last_mod, "Tle.from_orbit on an orbit with a history differs from Tle.from_orbit on a fresh orbit holding the same values",
                      dict(inp, read=n_op), observed=got, expected=want)
             return
+        if kw and got.startswith("ok "):
+            # explicit arguments take precedence over what the orbit carries
+            from beyond.io.tle import Tle
+            t = Tle(got[3:])
+            bad = None
+            if "name" in kw and t.name != kw["name"].strip():
+                bad = ("name", t.name, kw["name"])
+            if "norad_id" in kw and t.norad_id != int(kw["norad_id"]):
+                bad = ("norad_id", t.norad_id, kw["norad_id"])
+            if "cospar_id" in kw and t.cospar_id != kw["cospar_id"]:
+                bad = ("cospar_id", t.cospar_id, kw["cospar_id"])
+            if bad:
+                out.fail("from-orbit-argument-" + bad[0], "an explicit argument of Tle.from_orbit is not what the written TLE shows", dict(inp, read=n_op), observed=bad[1], expected=bad[2])
+                return
         in_range = cur["e7"] < 10**7 and cur["elnb"] < 10000 and cur["revs"] < 100000
         if not ident_touched and not kw and in_range:
             spec = "ok " + spec_text(cur)
